@@ -91,7 +91,7 @@ class Op:
             'filtermod': lambda: f'.filter((x: int)->{{x % {a[0]} == {a[1]}}})', 'filterlt': lambda: f'.filter((x: int)->{{x < {zl(a[0])}}})',
             'take': lambda: f'.take({a[0]})', 'skip': lambda: f'.skip({a[0]})', 'takewhile': lambda: f'.take_while((x: int)->{{x < {zl(a[0])}}})',
             'skipuntil': lambda: f'.skip_until((x: int)->{{x > {zl(a[0])}}})', 'zipadd': lambda: f'.zip({a[0].xr()}).map({T2}->{{t::item0 + t::item1}})',
-            'chain': lambda: f'.add({a[0].xr()})', 'agg': lambda: ('.aggregate((a: int, b: int)->{a + b})' if a[0] is None else f'.aggregate({zl(a[0])}, (a: int, b: int)->{{a + b}})'),
+            'chain': lambda: f'.add({a[0].xr()})', 'agg': lambda: ('.aggregate((a: int, b: int)->{a - b})' if a[0] is None else f'.aggregate({zl(a[0])}, (a: int, b: int)->{{a - b}})'),
             'enum': lambda: f'.enumerate({zl(a[0])}, {zl(a[1])}).map({T2}->{{t::item0 * 1000 + t::item1}})',
             'windows': lambda: f'.windows({a[0]}).map((w: Sequence<int>)->{{w.to_generator().reduce(0, (a: int, b: int)->{{a + b}})}})',
             'chunks': lambda: f'.chunks({a[0]}).map((w: Sequence<int>)->{{w.to_generator().reduce(0, (a: int, b: int)->{{a + b}})}})',
@@ -136,11 +136,17 @@ class Op:
             return itertools.chain(it, a[0].py())
         if k == 'agg':
             def g():
-                acc = 0 if a[0] is None else a[0]
+                # the non-commutative callback (a, b) -> a - b; the seedless form starts with the first element itself
+                first = True
+                acc = a[0]
                 if a[0] is not None:
                     yield acc
                 for x in it:
-                    acc += x
+                    if acc is None and first:
+                        acc = x
+                    else:
+                        acc = acc - x
+                    first = False
                     yield acc
             return g()
         if k == 'enum':
@@ -315,7 +321,7 @@ class C16(PropertyCheck):
             prog = (f'fn c0() -> str {{ let g = {body}; let a = g.to_array(); let b = g.to_array(); to_str((a, b)) }}\n'
                     f'fn c1() -> str {{ let g = {body}; to_str((g.len(), g.to_generator_probe())) }}\n' if False else
                     f'fn c0() -> str {{ let g = {body}; let a = g.to_array(); let b = g.to_array(); to_str((a, b)) }}\n'
-                    f'fn c1() -> str {{ let g = {body}; to_str((g.len(), g.reduce(0, (a: int, b: int)->{{a + b}}))) }}\n'
+                    f'fn c1() -> str {{ let g = {body}; to_str((g.len(), g.reduce(0, (a: int, b: int)->{{a * 2 + b}}))) }}\n'
                     f'fn c2() -> str {{ let g = {body}; to_str(g.last()) }}\nfn c3() -> str {{ let g = {body}; to_str(g.get({max(0, len(ref) // 2)})) }}\n')
             jobs.append({'id': f'p{i}', 'src': prog, 'calls': ['c0', 'c1', 'c2', 'c3'], 'limits': LIMITS})
             terms.append(f'show_l (run {P} {src.coq()} [{"; ".join(o.coq() for o in ops)}])')
@@ -346,7 +352,10 @@ class C16(PropertyCheck):
                         else 'the pipeline does not produce the elements, in order, that the same pipeline produces over plain lists')
                 violations.append({'what': what, 'case': case, 'impl': c0[:300], 'model': exp0[:300]})
                 continue
-            exp1 = f's:({len(ref)}, {sum(ref)})'
+            red = 0
+            for x_ in ref:
+                red = red * 2 + x_
+            exp1 = f's:({len(ref)}, {red})'
             exp2 = f's:{ref[-1]}' if ref else None
             exp3 = f's:{ref[len(ref) // 2]}' if ref else None
             bad = None
